@@ -247,9 +247,9 @@ class _Expr:
         if isinstance(n, ast.Compare) and len(n.ops) == 1:
             l, r = n.left, n.comparators[0]
             # A < 0.5 * B   (the cull condition): 2 * A < B
-            if (isinstance(n.ops[0], ast.Lt) and isinstance(r, ast.BinOp) and isinstance(r.op, ast.Mult)
+            if (isinstance(n.ops[0], (ast.Lt, ast.LtE)) and isinstance(r, ast.BinOp) and isinstance(r.op, ast.Mult)
                     and isinstance(r.left, ast.Constant) and r.left.value == 0.5):
-                return '(2 * %s <? %s)' % (self.z(l), self.z(r.right))
+                return '(2 * %s %s %s)' % (self.z(l), '<?' if isinstance(n.ops[0], ast.Lt) else '<=?', self.z(r.right))
             a, c = self.z(l), self.z(r)
             t = type(n.ops[0])
             if t is ast.Lt:
